@@ -35,6 +35,43 @@ var readOnlyMethods = map[string]string{
 	"(*math/big.Int).Text": "accessor", "(*math/big.Float).Sign": "accessor",
 	"(*time.Location).String": "accessor", "(time.Time).In": "value receiver",
 	"(reflect.Type).Kind": "interface accessor",
+	// sync.Map synchronises internally; what is *stored in it* is shared (see containerRoot)
+	"(*sync.Map).Load": "synchronised", "(*sync.Map).Store": "synchronised", "(*sync.Map).LoadOrStore": "synchronised",
+	"(*sync.Map).LoadAndDelete": "synchronised", "(*sync.Map).Delete": "synchronised", "(*sync.Map).Range": "synchronised",
+	"(*sync.Map).Swap": "synchronised", "(*sync.Map).CompareAndSwap": "synchronised", "(*sync.Map).CompareAndDelete": "synchronised",
+}
+
+// containerRoot: v was taken out of a package-level synchronised container (sync.Map): the
+// container is safe, the value is shared by everyone who loads it.
+func containerRoot(v ssa.Value, depth int) *ssa.Global {
+	if depth > 8 {
+		return nil
+	}
+	switch x := v.(type) {
+	case *ssa.TypeAssert:
+		return containerRoot(x.X, depth+1)
+	case *ssa.Extract:
+		return containerRoot(x.Tuple, depth+1)
+	case *ssa.Phi:
+		for _, e := range x.Edges {
+			if g := containerRoot(e, depth+1); g != nil {
+				return g
+			}
+		}
+	case *ssa.UnOp:
+		if x.Op == token.MUL {
+			return containerRoot(x.X, depth+1)
+		}
+	case *ssa.FieldAddr:
+		return containerRoot(x.X, depth+1)
+	case *ssa.IndexAddr:
+		return containerRoot(x.X, depth+1)
+	case *ssa.Call:
+		if f := x.Call.StaticCallee(); f != nil && strings.HasPrefix(f.String(), "(*sync.Map).Load") && len(x.Call.Args) > 0 {
+			return globalRoot(x.Call.Args[0], 0)
+		}
+	}
+	return nil
 }
 
 func checkC18(p *Program, r *Report) {
@@ -223,10 +260,16 @@ func checkC18(p *Program, r *Report) {
 			for _, ins := range b.Instrs {
 				switch x := ins.(type) {
 				case *ssa.Store:
+					if g := containerRoot(x.Addr, 0); g != nil {
+						problems = append(problems, fmt.Sprintf("%s: store into an object taken out of the package-level sync.Map %s, which every goroutine that loads it shares", p.pos(x.Pos()), g.Name()))
+					}
 					if why := sharedStore(x.Addr, shared, fn); why != "" {
 						problems = append(problems, fmt.Sprintf("%s: store to %s", p.pos(x.Pos()), why))
 					}
 				case *ssa.MapUpdate:
+					if g := containerRoot(x.Map, 0); g != nil {
+						problems = append(problems, fmt.Sprintf("%s: update of a map taken out of the package-level sync.Map %s: the container is synchronised, the map stored in it is shared by every goroutine that loads it", p.pos(x.Pos()), g.Name()))
+					}
 					if why := sharedRoot(x.Map, shared, fn, 0); why != "" {
 						isShared := globalRoot(x.Map, 0) != nil
 						if fa, ok := baseFieldAddr(x.Map); ok {
